@@ -43,7 +43,9 @@ ClausesOf ==
    C11 |-> {"C11_ProbeImmediate", "C11_UnicastReply", "C11_UnicastEcho", "C11_NoFlushInUnicast", "C11_SameSocket", "C11_UnexpectedUnicast",
             "C11_MulticastFormat", "C11_QuRouting"},
    C12 |-> {"C12_NoEarlyOrUnsolicited", "C12_AnsweredAtOnce", "C12_By500", "C12_ProtectedBy1200", "C12_NoDuplicateInBatch"},
-   C08 |-> {"C08_GoodbyeComplete", "C08_NoResurrection", "C08_AnnouncementComplete"}]
+   C08 |-> {"C08_GoodbyeComplete", "C08_NoResurrection", "C08_AnnouncementComplete"},
+   C09 |-> {"C09_ProbeSchedule", "C09_ProbeShape", "C09_ConflictDetected", "C09_Rename", "C09_SpuriousFailure", "C09_WrongException",
+            "C09_NeverTwice", "C09_NeverAnnounced", "C09_AnnouncedBeforeProbing", "C09_AnnouncementComplete"}]
 Own(clause) == \/ D.own = "ALL" \/ clause \in {"Trace_Malformed", "C15_NoException"} \/ clause \in ClausesOf[D.own]
 Bad(cond, clause) == cond /\ Own(clause)
 Fail(st, clause) == [st EXCEPT !.err = clause]
@@ -51,10 +53,13 @@ Fail(st, clause) == [st EXCEPT !.err = clause]
 NoSvc == [sid |-> -1]
 NoExp == [on |-> FALSE, u |-> {}, uopt |-> {}, dst |-> 0, port |-> 0, sock |-> 0, id |-> 0, qs |-> <<>>, legacy |-> FALSE, done |-> FALSE, t |-> -1]
 
+(* registration in progress (RFC 6762 8.1): candidate k of cands is being probed since instant r, i probes seen *)
+NoProbe == [on |-> FALSE, cands |-> <<>>, k |-> 1, r |-> 0, i |-> 0, rename |-> FALSE, exact |-> {}, fail |-> FALSE]
+
 InitState ==
   [reg |-> [k \in 0..7 |-> NoSvc], seen |-> <<>>, lastDid |-> 0, lastProc |-> -100000, lastQU |-> FALSE,
    obl |-> {}, qn |-> 0, slots |-> {}, gone |-> {}, exp |-> NoExp, hold |-> {}, inRecv |-> FALSE,
-   lastTcSrc |-> 0, err |-> ""]
+   lastTcSrc |-> 0, pr |-> NoProbe, pendReg |-> NoSvc, rejected |-> {}, again |-> <<>>, err |-> ""]
 
 (* ------------------------------------------------------------------ registry *)
 Sids(st) == {k \in 0..7 : st.reg[k] # NoSvc}
@@ -207,12 +212,72 @@ GoodbyeSet(st, v) ==
   \cup (IF \E k \in Sids(st) : st.reg[k].host = v.host /\ st.reg[k].sid # v.sid THEN {}
         ELSE {<<r, 0>> : r \in ToSet(v.a4) \cup ToSet(v.a6) \cup (IF v.nsec # 0 THEN {v.nsec} ELSE {})})
 
+(* ------------------------------------------------------------------ registration (C09) *)
+Cand(st) == st.pr.cands[st.pr.k]
+(* the cache holds a non-expired pointer type -> candidate name in the same spelling *)
+Conflict(st, t) == /\ (st.pr.k - 1) \in st.pr.exact
+                   /\ st.seen[Cand(st).ptr] # None /\ ~IsExpired(st.seen[Cand(st).ptr], t)
+RECURSIVE Settle(_, _)
+Settle(st, t) ==
+  IF st.pr.on /\ ~st.pr.fail /\ st.pr.i < 3 /\ st.pr.k <= Len(st.pr.cands) /\ Conflict(st, t)
+  THEN IF ~st.pr.rename THEN [st EXCEPT !.pr.fail = TRUE, !.rejected = @ \cup {Cand(st).ptr}]
+       ELSE IF st.pr.k = Len(st.pr.cands) THEN st
+       ELSE Settle([st EXCEPT !.pr.k = @ + 1, !.pr.r = t, !.pr.i = 0, !.rejected = @ \cup {Cand(st).ptr}], t)
+  ELSE st
+
+OnProbe(st, e) ==
+  IF st.again # <<>> THEN st
+  ELSE IF Bad(~st.pr.on \/ st.pr.fail \/ st.pr.i >= 3 \/ e.t # st.pr.r + 175 * st.pr.i, "C09_ProbeSchedule") THEN Fail(st, "C09_ProbeSchedule")
+  ELSE IF ~st.pr.on THEN st
+  ELSE LET c == Cand(st) IN
+       IF Bad(~e.mc \/ Len(e.qs) # 1 \/ Len(e.ns) # 1 \/ e.an # <<>> \/ e.ar # <<>> \/ e.tc, "C09_ProbeShape") THEN Fail(st, "C09_ProbeShape")
+       ELSE IF Bad(Len(e.qs) = 1 /\ Len(e.ns) = 1 /\
+                   (e.qs[1] # <<c.type, TPTR, 1, 1>> \/ e.ns[1][1] # c.ptr \/ e.ns[1][2] # c.ottl), "C09_ProbeShape") THEN Fail(st, "C09_ProbeShape")
+       ELSE [st EXCEPT !.pr.i = @ + 1]
+
+ProbeOverdue(st, t) == st.pr.on /\ ~st.pr.fail /\ (IF st.pr.i < 3 THEN t > st.pr.r + 175 * st.pr.i ELSE t > st.pr.r + 350)
+
+AddService(st, v, t, kind) ==
+  [st EXCEPT !.reg[v.sid] = v,
+             !.slots = @ \cup {[t |-> t + d, kind |-> kind, set |-> Broadcast(v, FALSE), used |-> FALSE] : d \in {0, 225, 450}},
+             !.gone = {g \in @ : g[1] \notin SvcRecs(v)},
+             !.rejected = @ \ SvcRecs(v)]
+
+OnApiRet(st, e) ==
+  IF e.op # "reg" THEN st
+  ELSE IF st.again # <<>>
+  THEN LET st1 == [st EXCEPT !.again = <<>>]
+           held == \E k \in Sids(st) : st.reg[k].name = e.final
+       IN IF ~e.ok THEN st1
+          ELSE IF Bad(held, "C09_NeverTwice") THEN Fail(st, "C09_NeverTwice")
+          ELSE IF \E k \in 1..Len(st.again) : st.again[k].name = e.final
+               THEN AddService(st1, [(st.again[CHOOSE k \in 1..Len(st.again) : st.again[k].name = e.final]) EXCEPT !.sid = e.sid], e.t, "ann")
+               ELSE IF Bad(TRUE, "C09_Rename") THEN Fail(st, "C09_Rename") ELSE st1
+  ELSE IF st.pr.on
+  THEN LET st1 == [st EXCEPT !.pr = NoProbe] IN
+       IF e.ok
+       THEN IF Bad(st.pr.fail \/ st.pr.i # 3, "C09_ConflictDetected") THEN Fail(st, "C09_ConflictDetected")
+            ELSE IF Bad(e.final # Cand(st).name, "C09_Rename") THEN Fail(st, "C09_Rename")
+            ELSE IF Bad(e.t # st.pr.r + 350, "C09_ProbeSchedule") THEN Fail(st, "C09_ProbeSchedule")
+            ELSE AddService(st1, [Cand(st) EXCEPT !.sid = e.sid], e.t, "ann9")
+       ELSE IF Bad(~st.pr.fail, "C09_SpuriousFailure") THEN Fail(st, "C09_SpuriousFailure")
+            ELSE IF Bad(e.exc \notin {"NonUniqueNameException", "ServiceNameAlreadyRegistered"}, "C09_WrongException") THEN Fail(st, "C09_WrongException")
+            ELSE st1
+  ELSE LET v == st.pendReg
+           st1 == [st EXCEPT !.pendReg = NoSvc]
+           held == \E k \in Sids(st) : st.reg[k].name = v.name
+       IN IF e.ok
+          THEN IF Bad(held, "C09_NeverTwice") THEN Fail(st, "C09_NeverTwice") ELSE AddService(st1, v, e.t, "ann")
+          ELSE IF Bad(~held, "C09_SpuriousFailure") THEN Fail(st, "C09_SpuriousFailure")
+               ELSE IF Bad(e.exc # "ServiceNameAlreadyRegistered", "C09_WrongException") THEN Fail(st, "C09_WrongException")
+               ELSE st1
+
 OnApi(st, e) ==
   CASE e.op = "reg" ->
-         LET v == e.svc IN
-         [st EXCEPT !.reg[v.sid] = v,
-                    !.slots = @ \cup {[t |-> e.t + d, kind |-> "ann", set |-> Broadcast(v, FALSE), used |-> FALSE] : d \in {0, 225, 450}},
-                    !.gone = {g \in @ : g[1] \notin SvcRecs(v)}]
+         IF e.again THEN [st EXCEPT !.again = e.cands]      \* a name this instance may already hold: only the outcome is judged
+         ELSE IF e.coop THEN [st EXCEPT !.pendReg = e.svc]
+         ELSE Settle([st EXCEPT !.pr = [on |-> TRUE, cands |-> e.cands, k |-> 1, r |-> e.t, i |-> 0, rename |-> e.rename,
+                                        exact |-> ToSet(e.exact), fail |-> FALSE]], e.t)
     [] e.op = "upd" ->
          LET v == e.svc
              st1 == [st EXCEPT !.reg[v.sid] = v]
@@ -251,7 +316,7 @@ OnRecv(st0, e) ==
            hasQU == \E k \in 1..Len(e.qs) : e.qs[k][3] = 1
        IN IF dup THEN st
           ELSE LET st1 == [st EXCEPT !.lastDid = e.did, !.lastProc = e.t, !.lastQU = hasQU] IN
-            IF e.resp THEN [st1 EXCEPT !.seen = IngestX(Rids, RR, IsPtr, st.seen, Items(e), e.t)]
+            IF e.resp THEN Settle([st1 EXCEPT !.seen = IngestX(Rids, RR, IsPtr, st.seen, Items(e), e.t)], e.t)
             ELSE IF Sids(st) = {} THEN st1
             ELSE IF e.tc
                  THEN \* deferred: same bytes already waiting from this source => ignored
@@ -318,15 +383,15 @@ FormatBad(e) ==
   \/ \E k \in 1..Len(e.an) : (e.an[k][3] = 1) = IsPtr(e.an[k][1])
   \/ \E k \in 1..Len(e.ar) : (e.ar[k][3] = 1) = IsPtr(e.ar[k][1])
 
-Cand(st, r, t) == {o \in st.obl : o.r = r /\ o.st # "used" /\ o.qt <= t /\ o.lo <= t /\ t <= o.hi}
-OwnObl(st, r, t) == CHOOSE o \in Cand(st, r, t) : \A p \in Cand(st, r, t) : o.hi <= p.hi
+OCand(st, r, t) == {o \in st.obl : o.r = r /\ o.st # "used" /\ o.qt <= t /\ o.lo <= t /\ t <= o.hi}
+OwnObl(st, r, t) == CHOOSE o \in OCand(st, r, t) : \A p \in OCand(st, r, t) : o.hi <= p.hi
 
 OnMulticastReply(st, e) ==
   LET an == {NsecCanon(st, r) : r \in RidsOf(e.an)}
       t == e.t
-  IN IF Bad(\E r \in an : Cand(st, r, t) = {}, "C12_NoEarlyOrUnsolicited") THEN Fail(st, "C12_NoEarlyOrUnsolicited")
+  IN IF Bad(\E r \in an : OCand(st, r, t) = {}, "C12_NoEarlyOrUnsolicited") THEN Fail(st, "C12_NoEarlyOrUnsolicited")
      ELSE IF ContentClause(st, e, an, {}) # "" THEN Fail(st, ContentClause(st, e, an, {}))
-     ELSE [st EXCEPT !.obl = {IF o.r \in an /\ o.st # "used" /\ o.qt <= t /\ Cand(st, o.r, t) # {}
+     ELSE [st EXCEPT !.obl = {IF o.r \in an /\ o.st # "used" /\ o.qt <= t /\ OCand(st, o.r, t) # {}
                               THEN (IF o = OwnObl(st, o.r, t) THEN [o EXCEPT !.st = "used"]
                                     ELSE [o EXCEPT !.st = "cov"])
                               ELSE o : o \in st.obl}]
@@ -334,7 +399,11 @@ OnMulticastReply(st, e) ==
 OnSend(st, e) ==
   IF e.bad THEN Fail(st, "C11_MulticastFormat")
   ELSE IF Bad(Resurrects(st, e), "C08_NoResurrection") THEN Fail(st, "C08_NoResurrection")
-  ELSE IF ~e.resp THEN st                                   \* queries (probes) are the business of C09
+  ELSE IF ~e.resp THEN (IF e.ns # <<>> THEN OnProbe(st, e) ELSE st)      \* probe queries; other queries belong to C10/C13
+  ELSE IF Bad(\E p \in Pairs(e.an) \cup Pairs(e.ar) : p[2] > 0 /\ p[1] \in st.rejected /\ p[1] \notin Owned(st), "C09_NeverAnnounced")
+       THEN Fail(st, "C09_NeverAnnounced")
+  ELSE IF Bad(st.pr.on /\ st.pr.k <= Len(st.pr.cands) /\ Cand(st).ptr \in RidsOf(e.an) /\ Cand(st).ptr \notin Owned(st), "C09_AnnouncedBeforeProbing")
+       THEN Fail(st, "C09_AnnouncedBeforeProbing")
   ELSE IF ~e.mc THEN OnUnicast(st, e)
   ELSE IF Bad(FormatBad(e), "C11_MulticastFormat") THEN Fail(st, "C11_MulticastFormat")
   ELSE LET slot == {x \in st.slots : x.t = e.t /\ ~x.used /\ x.set = Pairs(e.an) /\ e.ar = <<>>} IN
@@ -352,11 +421,13 @@ Step(st0, e, alt) ==
    IF st1.err # "" THEN st1
    ELSE IF MissedSlot(st1, e.t) /\ Bad(MissedKind(st1, e.t) = "bye", "C08_GoodbyeComplete") THEN Fail(st1, "C08_GoodbyeComplete")
    ELSE IF MissedSlot(st1, e.t) /\ Bad(MissedKind(st1, e.t) = "ann", "C08_AnnouncementComplete") THEN Fail(st1, "C08_AnnouncementComplete")
+   ELSE IF MissedSlot(st1, e.t) /\ Bad(MissedKind(st1, e.t) = "ann9", "C09_AnnouncementComplete") THEN Fail(st1, "C09_AnnouncementComplete")
+   ELSE IF Bad(ProbeOverdue(st1, e.t), "C09_ProbeSchedule") THEN Fail(st1, "C09_ProbeSchedule")
    ELSE CASE e.ev = "recv"      -> OnRecv(st1, e)
           [] e.ev = "recv_done" -> OnRecvDone(st1, e)
           [] e.ev = "send"      -> OnSend(st1, e)
           [] e.ev = "api"       -> OnApi(st1, e)
-          [] e.ev = "api_ret"   -> st1
+          [] e.ev = "api_ret"   -> OnApiRet(st1, e)
           [] e.ev = "rand"      -> OnRand(st1, e)
           [] e.ev = "end"       -> st1
           [] e.ev = "exc"       -> Fail(st1, "C15_NoException")
